@@ -9,7 +9,7 @@ from ..engine import Fail, Stratum
 from .. import exact as X, bridge as B, gen, admit as A
 
 ID = "C17"
-USE_WITNESS = True
+WITNESS = ()
 RULE = (
     "planes given in each constructor form - point+normal, general form (a,b,c,d) (all integer coefficient "
     "vectors in [-3,3]^3 \\ 0 with d in [-4,4] are enumerated: 342*9 = 3078, plus generated ones), three points, "
